@@ -82,12 +82,17 @@ PageItems(s, f, p) == LET cs == ChildSeq(s, f) IN SubSeq(cs, (p - 1) * s.P + 1, 
 RECURSIVE PathTo(_, _)
 PathTo(s, f) == IF f = Root THEN <<>> ELSE Append(PathTo(s, s.parent[f]), s.name[f])
 
-RECURSIVE ResolveFrom(_, _, _)
-ResolveFrom(s, f, path) ==                        \* -1 = no such item
-    IF Len(path) = 0 THEN f
-    ELSE LET c == { i \in 1..s.n : s.parent[i] = f /\ s.name[i] = Head(path) } IN
-         IF c = {} THEN -1 ELSE ResolveFrom(s, CHOOSE i \in c : TRUE, Tail(path))
-Resolve(s, path) == ResolveFrom(s, Root, path)
+\* (bound variables carry VALUES: TLC re-evaluates lazy operator arguments and LET definitions at
+\*  every use inside a set constructor, which made the obvious recursion exponential in the depth)
+StepTo(s, prev, nm) ==                            \* -1 = no such item
+    IF prev = -1 THEN -1
+    ELSE LET c == { i \in 1..s.n : s.parent[i] = prev /\ s.name[i] = nm } IN
+         IF c = {} THEN -1 ELSE CHOOSE i \in c : TRUE
+RECURSIVE ResolveK(_, _, _)
+ResolveK(s, path, k) ==                           \* the item k names down the path
+    IF k = 0 THEN Root
+    ELSE CHOOSE r \in { StepTo(s, prev, path[k]) : prev \in {ResolveK(s, path, k - 1)} } : TRUE
+Resolve(s, path) == ResolveK(s, path, Len(path))
 
 RECURSIVE IsUnder(_, _, _)
 IsUnder(s, i, f) == i = f \/ (i # Root /\ IsUnder(s, s.parent[i], f))     \* f is i or an ancestor of i
@@ -159,9 +164,11 @@ ListingOK(s, j, O) == ListingOKF(s, j, O, EffFilter(j))
 WalkedOK(s, j, O) == ListingOKF(s, j, O, NoFilter)
 
 \* number of requests of a fault-free call on a fresh client (token + site + walk)
-RECURSIVE SumPages(_, _)
-SumPages(s, S) == IF S = {} THEN 0 ELSE LET g == CHOOSE x \in S : TRUE IN 2 * NPages(s, g) + SumPages(s, S \ {g})
-NReqWalk(s, f) == SumPages(s, FoldersUnder(s, f))
+RECURSIVE SumPages(_, _, _)                       \* folders 0..g under f, two passes each (index recursion:
+SumPages(s, f, g) ==                              \*  TLC re-evaluates lazy set arguments exponentially)
+    IF g < 0 THEN 0
+    ELSE (IF IsFolder(s, g) /\ IsUnder(s, g, f) THEN 2 * NPages(s, g) ELSE 0) + SumPages(s, f, g - 1)
+NReqWalk(s, f) == SumPages(s, f, s.n)
 RECURSIVE SumTargets(_, _, _)
 SumTargets(s, j, x) ==
     IF x > Len(j.targets) THEN 0
